@@ -12,6 +12,7 @@
 #include "valloc.h"
 #include "vpeer.h"
 #include "vs.h"
+#include <pthread.h>
 #include <stdlib.h>
 #include <string.h>
 #include <unistd.h>
@@ -486,6 +487,135 @@ run_device(void *arg)
 	vh_fini();
 }
 
+// ---- departure: a pipe is closed while a transfer on it completes (schedules) --------------------
+// for every pairing: B sends to A while another thread closes the connection's pipe on A's or on B's
+// side; the completion callbacks of the transfer race with the pipe's teardown.  Then the connection
+// is re-made and both sockets are used again.  Results are free (the message may go with the pipe);
+// the oracles are the sanitizers, the accounting allocator and termination.
+static uint32_t dep_id[2];
+static void
+dep_cb(nng_pipe p, nng_pipe_ev ev, void *arg)
+{
+	(void) ev;
+	dep_id[(int) (intptr_t) arg] = p.id;
+}
+static void *
+dep_send(void *a)
+{
+	(void) a;
+	snd(B, "in-flight", 0);
+	return NULL;
+}
+static void *
+dep_recv(void *a)
+{
+	(void) a;
+	rcv(A, 0);
+	return NULL;
+}
+static void *
+dep_close(void *a)
+{
+	nng_pipe p = NNG_PIPE_INITIALIZER;
+	p.id       = dep_id[(int) (intptr_t) a];
+	nng_pipe_close(p);
+	return NULL;
+}
+static void
+run_departure(void *arg)
+{
+	int pair = (int) (intptr_t) arg;
+	vh_init(1);
+	VH_OK(PP[pair].a(&A));
+	VH_OK(PP[pair].b(&B));
+	if (PP[pair].a == nng_sub0_open)
+		VH_OK(nng_sub0_socket_subscribe(A, "", 0));
+	for (int i = 0; i < 2; i++) {
+		nng_socket s = i ? B : A;
+		VH_OK(nng_socket_set_ms(s, NNG_OPT_RECVTIMEO, 20));
+		VH_OK(nng_socket_set_ms(s, NNG_OPT_SENDTIMEO, 20));
+		VH_OK(nng_pipe_notify(s, NNG_PIPE_EV_ADD_POST, dep_cb, (void *) (intptr_t) i));
+	}
+	VH_OK(nng_socket_set_ms(B, NNG_OPT_RECONNMINT, 5));
+	VH_OK(nng_socket_set_ms(B, NNG_OPT_RECONNMAXT, 5));
+	dep_id[0] = dep_id[1] = 0;
+	VH_OK(nng_listen(A, "inproc://c03dep", NULL, 0));
+	VH_OK(nng_dial(B, "inproc://c03dep", NULL, 0));
+	vs_settle();
+	if (!dep_id[0] || !dep_id[1])
+		vs_fail("harness:setup", "pipe ids not seen");
+	int side   = vs_choose(VK_ENV, 2); // whose pipe is closed
+	int reader = vs_choose(VK_ENV, 2); // a receive is waiting on A / nobody reads
+	// one completed transfer first (thorough tier only)
+	int warm   = vx_is_thorough() ? vs_choose(VK_ENV, 2) : 0;
+	if (warm) {
+		snd(B, "warm", 0);
+		vs_settle();
+		if (reader)
+			rcv(A, NNG_FLAG_NONBLOCK);
+	}
+	pthread_t t1, t2, t3;
+	vs_window(1);
+	pthread_create(&t1, NULL, dep_send, NULL);
+	pthread_create(&t2, NULL, dep_close, (void *) (intptr_t) side);
+	if (reader)
+		pthread_create(&t3, NULL, dep_recv, NULL);
+	pthread_join(t1, NULL);
+	pthread_join(t2, NULL);
+	if (reader)
+		pthread_join(t3, NULL);
+	vs_window(0);
+	vs_settle();
+	vs_sleep(30); // redial
+	vs_settle();
+	// both sockets are used again
+	for (int i = 0; i < 3; i++) {
+		snd(B, "again", NNG_FLAG_NONBLOCK);
+		vs_settle();
+		if (PP[pair].pattern == PAT_REQREP) {
+			if (rcv(A, NNG_FLAG_NONBLOCK) == 0) {
+				snd(A, "reply", NNG_FLAG_NONBLOCK);
+				vs_settle();
+				rcv(B, NNG_FLAG_NONBLOCK);
+			}
+		} else {
+			while (rcv(A, NNG_FLAG_NONBLOCK) == 0)
+				;
+			if (PP[pair].pattern == PAT_BOTH) {
+				snd(A, "back", NNG_FLAG_NONBLOCK);
+				vs_settle();
+				while (rcv(B, NNG_FLAG_NONBLOCK) == 0)
+					;
+			}
+		}
+	}
+	vs_nontrivial();
+	vs_outcome("side=%d reader=%d warm=%d", side, reader, warm);
+	nng_socket_close(B);
+	nng_socket_close(A);
+	vh_fini();
+}
+
+static void
+explore_dep(int pair, int T)
+{
+	char name[60];
+	snprintf(name, sizeof(name), "departure-%s", PP[pair].name);
+	vx_cfg c;
+	memset(&c, 0, sizeof(c));
+	c.prop     = "C03";
+	c.scenario = strdup(name);
+	c.run      = run_departure;
+	c.arg      = (void *) (intptr_t) pair;
+	c.budget[VB_PREEMPT] = 1;
+	c.budget[VB_SWITCH]  = 2;
+	c.budget[VB_TIMER]   = 0;
+	c.budget[VB_ENV]     = -1;
+	c.total              = T ? 2 : 2;
+	c.watchdog_s         = 20;
+	vx_explore(&c, NULL);
+}
+
 static void
 explore(const char *name, void (*fn)(void *))
 {
@@ -515,6 +645,9 @@ main(int argc, char **argv)
 		explore(strdup(name), run_script);
 	}
 	explore("device", run_device);
+	// quick: the cooked pairings; thorough: all of them, also after a warm-up transfer
+	for (int pr = 0; pr < (T ? NPP : 7); pr++)
+		explore_dep(pr, T);
 	if (T) {
 		for (g_pair = 0; g_pair < NPP; g_pair++) {
 			char name[60];
